@@ -267,7 +267,7 @@ func (a *abstraction) project(inst *sut.Instance, call Call, cerr error, prevRec
 
 // randomCall picks the next call from what currently exists (argument selection only; the
 // expected outcome is never computed here).
-func randomCall(r *rand.Rand, ts *TraceSpec, last *Event, chunkIDs []string) Call {
+func randomCall(r *rand.Rand, ts *TraceSpec, last *Event, chunkIDs []string, open map[string]*HInfo) Call {
 	var files, dirs, all [][]string
 	for _, v := range last.Vis {
 		if v.P == nil {
@@ -320,6 +320,57 @@ func randomCall(r *rand.Rand, ts *TraceSpec, last *Event, chunkIDs []string) Cal
 	}
 	k := 1 + r.Intn(3)
 	ch := chunkIDs[r.Intn(len(chunkIDs))]
+	// handles that stay open across other calls
+	if r.Intn(100) < 14 {
+		contentLen := func(p []string) int {
+			for _, v := range last.Vis {
+				if strings.Join(v.P, "/") == strings.Join(p, "/") && v.Kind == "file" {
+					return len(v.Content)
+				}
+			}
+			return 0
+		}
+		ids := []string{}
+		for _, h := range []string{"h1", "h2"} {
+			if _, ok := open[h]; ok {
+				ids = append(ids, h)
+			}
+		}
+		if len(ids) < 2 && (len(ids) == 0 || r.Intn(3) == 0) {
+			h := "h1"
+			if _, ok := open["h1"]; ok {
+				h = "h2"
+			}
+			p := pick(files)
+			if len(p) == 0 || r.Intn(4) == 0 {
+				p = nonRoot(fresh())
+			}
+			isDir := false
+			for _, d := range dirs {
+				if strings.Join(d, "/") == strings.Join(p, "/") {
+					isDir = true
+				}
+			}
+			if !isDir {
+				flags := []int{1, 2, 2, 6, 6, 10, 18, 26, 42, 0}
+				return Call{Op: "HOpen", P: p, Q: []string{h}, K: flags[r.Intn(len(flags))]}
+			}
+		} else if len(ids) > 0 {
+			h := ids[r.Intn(len(ids))]
+			hi := open[h]
+			wr := hi.K%4 == 1 || hi.K%4 == 2
+			ap, tr := (hi.K/4)%2 == 1, (hi.K/16)%2 == 1
+			switch y := r.Intn(10); {
+			case y < 5 && wr && (ap || hi.Dirty || tr || contentLen(hi.Path) == 0):
+				// only where chunk-level contents can express the result (see HandleCalls in STFS.tla)
+				return Call{Op: "HWrite", P: hi.Path, Q: []string{h}, C: ch}
+			case y < 7:
+				return Call{Op: "HSync", P: hi.Path, Q: []string{h}}
+			default:
+				return Call{Op: "HClose", P: hi.Path, Q: []string{h}}
+			}
+		}
+	}
 	switch x := r.Intn(100); {
 	case x < 4 && len(dirs) > 0:
 		// batched archive-interface call: 1..3 members with content below an existing directory
@@ -446,6 +497,7 @@ func recordTrace(ts *TraceSpec, ks *sut.KeySet, work string) (out TraceOut) {
 	defer inst.Close()
 	out.Cfg = inst.Cfg
 	w := NewWorld(inst, ts.Conc)
+	defer w.CloseHandles()
 	chunkIDs := []string{}
 	for id := range w.Conc.Chunks {
 		chunkIDs = append(chunkIDs, id)
@@ -470,7 +522,7 @@ func recordTrace(ts *TraceSpec, ks *sut.KeySet, work string) (out TraceOut) {
 		if len(ts.Script) > 0 {
 			c = ts.Script[i]
 		} else {
-			c = randomCall(r, ts, last, chunkIDs)
+			c = randomCall(r, ts, last, chunkIDs, w.hinfo)
 		}
 		if c.P == nil {
 			c.P = []string{}
